@@ -719,3 +719,34 @@ def opcode_numbers(ctx):
                     'a script containing byte %#04x is evaluated by the handler of %s' % (code, nm))
     ctx.saw('%d opcode numbers compared with the consensus table' % n)
     ctx.floor(n, 110, 'opcode numbers')
+
+
+@PROP.obligation('C19.redeemscript-as-pushed', canaries=[
+    mut.replace_expr('scripts', 'Script.parse_bytesio', 's2.as_bytes()', 's2.serialize()', 'embedded redeem script re-encoded before it is hashed'),
+])
+def redeemscript_as_pushed(ctx):
+    """P2SH: consensus hashes the redeem script EXACTLY as it was pushed. Script.parse_bytesio hands the embedded script to evaluation
+    through env_data['redeemscript'] (Script.evaluate pushes it for OP_HASH160 ... OP_EQUAL): every value it assigns to `redeemscript`
+    is the data item read from the stream or the cached raw bytes of its parse (as_bytes / raw / as_hex) - never serialize(), which
+    re-encodes pushes canonically (a key pushed with OP_PUSHDATA1 would hash differently)."""
+    q = 'scripts:Script.parse_bytesio'
+    fn = ctx.repo.func(q)
+    n = 0
+    for a in ast.walk(fn):
+        if not (isinstance(a, ast.Assign) and any(isinstance(t, ast.Name) and t.id == 'redeemscript' for t in a.targets)):
+            continue
+        v = a.value
+        if isinstance(v, ast.Constant):
+            continue
+        n += 1
+        calls = [c for c in ast.walk(v) if isinstance(c, ast.Call) and isinstance(c.func, ast.Attribute)]
+        re_encodes = [c for c in calls if c.func.attr in ('serialize', 'serialize_list')]
+        raw_forms = [c for c in calls if c.func.attr in ('as_bytes', 'as_hex')] or [x for x in ast.walk(v) if isinstance(x, ast.Attribute) and x.attr in ('raw', '_raw')] or \
+                    [x for x in ast.walk(v) if isinstance(x, ast.Name) and x.id == 'data']
+        ctx.saw('redeemscript = %s' % norm(v)[:60])
+        if re_encodes:
+            ctx.violate(q, 'the embedded redeem script is taken from `%s`, a re-encoding of the parsed commands, not the bytes that were pushed' % norm(v)[:60], a,
+                        'a P2SH spend whose redeem script pushes a key with OP_PUSHDATA1 is checked against the hash of the canonical re-encoding: consensus-valid spends are rejected and the canonical hash accepts a script that is not the one committed to')
+        elif not raw_forms:
+            ctx.unsure('parse_bytesio: provenance of `redeemscript = %s` not classified' % norm(v)[:60])
+    ctx.floor(n, 1, 'assignments of the embedded redeem script')
